@@ -33,7 +33,7 @@ Definition vresponse (r : response) : val :=
 Record wcase := { wc_recs : list record; wc_delim : str; wc_paths : list str; wc_expands : list (option str) }.
 Definition decode_wcase (v : val) : option wcase :=
   match v with
-  | VList [rs; VStr d; ps; es] =>
+  | VList (rs :: VStr d :: ps :: es :: _) =>     (* a fifth element (how the harness staged the requests) is not the model's business *)
       match as_records rs, as_strs ps, as_list_of (as_opt as_str) es with
       | Some rs', Some ps', Some es' => Some {| wc_recs := rs'; wc_delim := d; wc_paths := ps'; wc_expands := es' |}
       | _, _, _ => None end
